@@ -392,6 +392,8 @@ theorem step_refines (m : St) (s : SpecSt) (op : Op) (h : R m s) (hb : s.live.le
   cases op with
   | load rs =>
     exact ⟨rfl, ⟨rfl, hl, hg, hn⟩, by simp [specStep, opSize]⟩
+  | loadres res ths =>
+    exact ⟨rfl, ⟨by simp only [step, specStep, hr], hl, hg, hn⟩, by simp [specStep, opSize]⟩
   | conc res =>
     refine ⟨?_, ⟨hr, hl, hg, hn⟩, by simp [specStep, opSize]⟩
     simp only [step, specStep]; rw [hg]
@@ -540,6 +542,7 @@ theorem specStep_cap (z : Nat) (s : SpecSt) (o : Op) (hs : seqOp o = true)
     CapInv z (specStep s o).1 ∧ (specStep s o).1.rules = s.rules := by
   cases o with
   | load rs => cases hs
+  | loadres a b => cases hs
   | sched a b c d => cases hs
   | soak a b c d => cases hs
   | conc res => exact ⟨h, rfl⟩
